@@ -421,7 +421,15 @@ class BioConsert(RankAggAlgorithm, PairwiseBasedAlgorithm):
             # and do not need to be unified
             rankings_cons = [alg.compute_consensus_rankings(dataset, scoring_scheme, True).consensus_rankings[0]
                              for alg in self._starting_algorithms]
-            return BioConsert()._departure_rankings(Dataset(rankings_cons), scoring_scheme, False, False)
+            # the bucket ids must be indexed by the int ids of the elements in the input dataset (same ids as the
+            # cost matrix), not by the ids of a new Dataset built from the consensus rankings
+            mapping_elem_id: Dict[Element, int] = dataset.mapping_elem_id
+            rankings_departure: ndarray = zeros((len(rankings_cons), dataset.nb_elements))
+            for id_ranking, ranking_cons in enumerate(rankings_cons):
+                for id_bucket, bucket in enumerate(ranking_cons):
+                    for elem in bucket:
+                        rankings_departure[id_ranking][mapping_elem_id[elem]] = id_bucket
+            return rankings_departure
 
         else:
 
